@@ -22,6 +22,7 @@ class MemoryPool;
 
 class SievingPrimes : public Erat
 {
+  PRIMESIEVE_VERIF_FRIEND
 public:
   SievingPrimes() = default;
   SievingPrimes(Erat*, uint64_t, MemoryPool& memoryPool);
